@@ -111,6 +111,41 @@ theorem reattachLoop_inorder (cs : List RTrivia) : ∀ (token : List RTrivia) (i
       rw [insertAt_ge token _ _ h, insertAt_ge _ _ _ (by simp; omega), ih _ _ _ _ (by simp; omega)]
       simp
 
+theorem insertAt_append_len (pre own : List RTrivia) (t : RTrivia) :
+    insertAt (pre ++ own) pre.length t = pre ++ t :: own := by
+  induction pre with
+  | nil => cases own <;> rfl
+  | cons x xs ih => simp only [List.cons_append, List.length_cons, insertAt, ih]
+
+theorem reattachLoop_small_gaps (cs : List RTrivia) : ∀ (pre own : List RTrivia) (index offset : Nat)
+    (prev : Option Nat), pre.length = index + offset → smallGaps prev cs = true →
+    reattachLoop (pre ++ own) index offset prev cs = pre ++ interleave prev cs ++ own := by
+  induction cs with
+  | nil => intro pre own _ _ _ _ _; simp [reattachLoop, interleave]
+  | cons t rest ih =>
+    intro pre own index offset prev h hs
+    simp only [smallGaps, Bool.and_eq_true, decide_eq_true_eq] at hs
+    obtain ⟨hg1, hrest⟩ := hs
+    simp only [reattachLoop, interleave]
+    generalize gapOf prev t.line = gap at hg1
+    by_cases hg : gap = 0
+    · subst hg
+      simp only [bne_self_eq_false, Bool.false_eq_true, if_false]
+      rw [← h, insertAt_append_len]
+      have := ih (pre ++ [t]) own (index + 1) offset _ (by simp; omega) hrest
+      simpa using this
+    · have hb : (gap != 0) = true := by simpa using hg
+      have h1 : gap = 1 := by omega
+      subst h1
+      simp only [hb, if_true]
+      rw [← h, insertAt_append_len]
+      have e1 : pre ++ gapTrivia 1 :: own = (pre ++ [gapTrivia 1]) ++ own := by simp
+      have e2 : pre.length + 1 = (pre ++ [gapTrivia 1]).length := by simp
+      have e3 : index + (offset + 1) = (pre ++ [gapTrivia 1]).length := by simp; omega
+      rw [e1, e3, insertAt_append_len]
+      have := ih (pre ++ [gapTrivia 1] ++ [t]) own (index + 1) (offset + 1) _ (by simp; omega) hrest
+      simpa using this
+
 theorem nlAll_reattachLoop (cs : List RTrivia) : ∀ (token : List RTrivia) (index offset : Nat)
     (prev : Option Nat),
     nlAll (reattachLoop token index offset prev cs) = nlAll token + nlAll cs + gapSum prev cs := by
